@@ -120,3 +120,8 @@ PROPS['C12'] = dict(
     unit_modules=[], driver_modules=['drivers.c12'], level='other',
     level_text='tbd', level_note='tbd', assumptions=COMMON_ASSUMPTIONS,
 )
+
+PROPS['C11'] = dict(
+    unit_modules=[], driver_modules=['drivers.c11'], level='other',
+    level_text='tbd', level_note='tbd', assumptions=COMMON_ASSUMPTIONS,
+)
